@@ -95,6 +95,8 @@ pub struct Stats {
 }
 
 const SIG_CAP: usize = 3_000_000;
+/// a job (C19: one conversation with all its faulted runs) never takes this long unless it spins
+pub const WEDGE_S: u64 = 120;
 
 impl Stats {
     pub fn bump(&mut self, k: &'static str, n: u64) {
@@ -629,7 +631,27 @@ pub fn run_batch(check: &dyn Check, tier: Tier, seed: u64, known: &Known) -> Bat
         .ok()
         .and_then(|p| std::fs::OpenOptions::new().create(true).write(true).truncate(true).open(p).ok());
     let slot = AtomicU64::new(0);
+    // watchdog: a single job that makes no progress for WEDGE_S seconds means the code under
+    // test spins without I/O (the simulator bounds I/O itself). The process then aborts; the
+    // supervising parent finds the job through the journal and reports it with a replay file.
+    let heartbeats: Vec<AtomicU64> = (0..workers).map(|_| AtomicU64::new(0)).collect();
+    let all_done = AtomicBool::new(false);
     std::thread::scope(|s| {
+        s.spawn(|| {
+            let mut last: Vec<(u64, Instant)> = heartbeats.iter().map(|h| (h.load(Ordering::Relaxed), Instant::now())).collect();
+            while !all_done.load(Ordering::Relaxed) {
+                std::thread::sleep(std::time::Duration::from_millis(500));
+                for (i, h) in heartbeats.iter().enumerate() {
+                    let v = h.load(Ordering::Relaxed);
+                    if v != last[i].0 {
+                        last[i] = (v, Instant::now());
+                    } else if v != 0 && v != u64::MAX && last[i].1.elapsed().as_secs() >= WEDGE_S {
+                        eprintln!("simcheck: job {} has made no progress for {} s: wedged", v - 1, WEDGE_S);
+                        std::process::abort();
+                    }
+                }
+            }
+        });
         for _ in 0..workers {
             s.spawn(|| {
                 let my_slot = slot.fetch_add(1, Ordering::Relaxed);
@@ -658,6 +680,7 @@ pub fn run_batch(check: &dyn Check, tier: Tier, seed: u64, known: &Known) -> Bat
                             use std::os::unix::fs::FileExt;
                             let _ = j.write_at(&(job + 1).to_le_bytes(), my_slot * 8);
                         }
+                        heartbeats[my_slot as usize].store(job + 1, Ordering::Relaxed);
                         let mut rng = Rng::new(rng::mix(&[seed, idhash, tier_n, job]));
                         ctx.job = job;
                         ctx.sub = 0;
@@ -677,7 +700,11 @@ pub fn run_batch(check: &dyn Check, tier: Tier, seed: u64, known: &Known) -> Bat
                         stop.store(true, Ordering::Relaxed);
                     }
                 }
+                heartbeats[my_slot as usize].store(u64::MAX, Ordering::Relaxed);
                 merged.lock().unwrap().merge(ctx.stats);
+                if heartbeats.iter().all(|h| h.load(Ordering::Relaxed) == u64::MAX) {
+                    all_done.store(true, Ordering::Relaxed);
+                }
             });
         }
     });
